@@ -1,4 +1,253 @@
-import Pymeeus.Gen.R.Kepler
+import Pymeeus.Refine.Kepler
+/-!
+# C11 — Kepler's equation is solved; two-body relations hold
+
+Theorems about the real-number instantiation `Pymeeus.GenR.Kepler` of `templates/Kepler.lean` (the model of
+`kepler_equation`, `velocity*`, `length_orbit`, `passage_nodes_*`, `phase_angle`, `illuminated_fraction` of
+pymeeus/Coordinates.py).  Angles are degree values, as in the model; `pradians x = x * (π/180)`.
+-/
+noncomputable section
 namespace Pymeeus.C11
-theorem stub : (1 : Nat) = 1 := rfl
+open Pymeeus Pymeeus.PR Pymeeus.GenR.Kepler Pymeeus.Refine.Kepler Real
+
+/-! ## Kepler's equation -/
+
+/-- "bisection terminates after a fixed number of steps": for EVERY eccentricity and reduced anomaly (no
+    hypothesis at all) the loop `while abs(e0 - ef) > TOL` evaluates its test exactly 35 times, i.e. makes exactly
+    34 passes: fuel 35 yields a result, fuel 34 does not. (`|e0 - ef| = (π/2)/2^k` after `k` passes, and
+    `(π/2)/2^33 > 1e-10 ≥ (π/2)/2^34`.) -/
+theorem bisection_terminates (ecc m : ℝ) :
+    (∃ e0, loopFuel (kepler_step ecc m) 35 (π / 2, π / 4, 0) = some e0) ∧
+      loopFuel (kepler_step ecc m) 34 (π / 2, π / 4, 0) = none := by
+  obtain ⟨⟨e0, h, _⟩, hn⟩ :=
+    run_loop ecc m (fun _ _ => True) (fun _ _ _ _ => trivial) 34 0 (by norm_num) (π / 2, π / 4, 0) inv_init trivial
+  exact ⟨⟨e0, h⟩, hn⟩
+
+/-- The fuel the model gives to the loop (100) is never exhausted: `kepler_search` returns a value for every input. -/
+theorem search_total (ecc m : ℝ) : ∃ e0, kepler_search ecc m = some e0 := by
+  obtain ⟨⟨e0, h⟩, _⟩ := bisection_terminates ecc m
+  refine ⟨e0, ?_⟩
+  have := loopFuel_mono _ _ _ _ h 65
+  have hinit : ((Pymeeus.PR.pi / 2.0, Pymeeus.PR.pi / 4.0, 0.0) : ℝ × ℝ × ℝ) = (π / 2, π / 4, 0) := by
+    simp only [Pymeeus.PR.pi]; norm_num
+  unfold kepler_search kepler_fuel
+  rw [hinit]; exact this
+
+/-- "the root E* of E − e sin E = M exists and is unique (1 − e cos E ≥ 1 − e > 0, strictly monotone)". -/
+theorem kepler_root_exists_unique {e : ℝ} (he0 : 0 ≤ e) (he1 : e < 1) {m : ℝ} (h0 : 0 ≤ m) (h1 : m ≤ π) :
+    ∃! x : ℝ, x - e * Real.sin x = m := by
+  obtain ⟨x, _, _, hx⟩ := kep_root_exists e h0 h1
+  refine ⟨x, hx, fun y hy => ?_⟩
+  exact (kep_strictMono he0 he1).injective (by show kep e y = kep e x; unfold kep at hx ⊢; rw [hy, hx])
+
+/-- "… and stays within the current bracket, hence |E − E*| ≤ final step": for `0 ≤ e < 1` and a reduced anomaly
+    `m = x − e sin x` with `x ∈ [0, π]`, the search returns `e0` with `|e0 − x| ≤ (π/2)/2^34` (≈ 9.1e-11 rad),
+    strictly inside `(0, π)`. -/
+theorem bisection_invariant {e : ℝ} (he0 : 0 ≤ e) (he1 : e < 1) {x : ℝ} (hx0 : 0 ≤ x) (hx1 : x ≤ π) :
+    ∃ e0, kepler_search e (x - e * Real.sin x) = some e0 ∧ |e0 - x| ≤ (π / 2) / 2 ^ 34 ∧ 0 < e0 ∧ e0 < π := by
+  obtain ⟨e0, hs, h1, h2, h3⟩ := search_spec he0 he1 hx0 hx1
+  have := gap_pos 34
+  exact ⟨e0, hs, h1, by linarith, by linarith⟩
+
+/-- Main clause: "for every eccentricity in [0, 1) and every mean anomaly the returned eccentric anomaly E
+    satisfies E − e sin E = M modulo 360 degrees to 5e-8 degree".  The bound proved is
+    `(1 + e) · 90 / 2^34 ≤ 180/2^34 ≈ 1.05e-8` degree. -/
+theorem kepler_residual {e : ℝ} (he0 : 0 ≤ e) (he1 : e < 1) (M : ℝ) :
+    ∃ E v, kepler_equation e M = .ok (E, v) ∧
+      ∃ k : ℤ, |E - e * pdegrees (Real.sin (pradians E)) - M - 360 * k| ≤ (1 + e) * (90 / 2 ^ 34) := by
+  obtain ⟨f, m, e0, xr, hred, hf, hx0, hx1, hxm, hs, h1, h2, h3, heq, hA, hB⟩ := kepler_struct he0 he1 M
+  obtain ⟨hr0, hr1, k, hk⟩ := red2pi_spec (M * (π / 180))
+  have hpi := Real.pi_pos
+  refine ⟨_, _, heq, ?_⟩
+  have hE : pradians (e0 * f * (180 / π)) = e0 * f := radians_degrees _
+  rw [hE]
+  -- the residual in radians
+  have hres : |kep e e0 - m| ≤ (1 + e) * gap 34 := by
+    rw [← hxm]
+    calc |kep e e0 - kep e xr| ≤ (1 + e) * |e0 - xr| := kep_sub_le he0 xr e0
+      _ ≤ (1 + e) * gap 34 := by apply mul_le_mul_of_nonneg_left h1; linarith
+  have hgap : gap 34 * (180 / π) = 90 / 2 ^ 34 := by unfold gap; field_simp; ring
+  generalize hμ : M * (π / 180) = μ at *
+  have hM : M = μ * (180 / π) := by rw [← hμ]; field_simp
+  by_cases hc : π < red2pi μ
+  · obtain ⟨hf1, hm⟩ := hB hc
+    refine ⟨-(k + 1), ?_⟩
+    have : e0 * f * (180 / π) - e * pdegrees (Real.sin (e0 * f)) - M - 360 * ((-(k + 1) : ℤ) : ℝ)
+        = -(kep e e0 - m) * (180 / π) := by
+      have hsin : Real.sin (e0 * -1) = -Real.sin e0 := by rw [mul_neg_one, Real.sin_neg]
+      rw [hf1, hsin, hM, hm]
+      unfold pdegrees kep
+      conv_lhs => rw [hk]
+      push_cast
+      field_simp
+      ring
+    rw [this, abs_mul, abs_neg, abs_of_pos (by positivity : (0:ℝ) < 180 / π)]
+    calc |kep e e0 - m| * (180 / π) ≤ (1 + e) * gap 34 * (180 / π) :=
+          mul_le_mul_of_nonneg_right hres (by positivity)
+      _ = (1 + e) * (90 / 2 ^ 34) := by rw [mul_assoc, hgap]
+  · obtain ⟨hf1, hm⟩ := hA (not_lt.mp hc)
+    refine ⟨-k, ?_⟩
+    have : e0 * f * (180 / π) - e * pdegrees (Real.sin (e0 * f)) - M - 360 * ((-k : ℤ) : ℝ)
+        = (kep e e0 - m) * (180 / π) := by
+      rw [hf1, mul_one, hM, hm]
+      unfold pdegrees kep
+      conv_lhs => rw [hk]
+      push_cast
+      field_simp
+      ring
+    rw [this, abs_mul, abs_of_pos (by positivity : (0:ℝ) < 180 / π)]
+    calc |kep e e0 - m| * (180 / π) ≤ (1 + e) * gap 34 * (180 / π) :=
+          mul_le_mul_of_nonneg_right hres (by positivity)
+      _ = (1 + e) * (90 / 2 ^ 34) := by rw [mul_assoc, hgap]
+
+/-- The constant of `kepler_residual` is below the 5e-8 degree of the property statement. -/
+theorem residual_bound_lt {e : ℝ} (_he0 : 0 ≤ e) (he1 : e < 1) : (1 + e) * (90 / 2 ^ 34) < (5e-8 : ℝ) := by
+  have : (1 + e) * (90 / 2 ^ 34) ≤ 2 * (90 / 2 ^ 34 : ℝ) := by
+    apply mul_le_mul_of_nonneg_right (by linarith) (by positivity)
+  have h2 : 2 * (90 / 2 ^ 34 : ℝ) < 5e-8 := by norm_num
+  linarith
+
+
+/-- "lies in the same half revolution as M": write `M = r + 360 k` with `0 ≤ r < 360` (this determines `r`);
+    if `r ≤ 180` the returned `E` is in `(0°, 180°)`, otherwise in `(-180°, 0°)` — the reflection `f = -1` is applied
+    exactly when the reduced anomaly lies in `(π, 2π)`. -/
+theorem kepler_half_revolution {e : ℝ} (he0 : 0 ≤ e) (he1 : e < 1) (M : ℝ) :
+    ∃ E v, kepler_equation e M = .ok (E, v) ∧
+      ∃ (r : ℝ) (k : ℤ), 0 ≤ r ∧ r < 360 ∧ M = r + 360 * k ∧
+        (r ≤ 180 → 0 < E ∧ E < 180) ∧ (180 < r → -180 < E ∧ E < 0) := by
+  obtain ⟨f, m, e0, xr, hred, hf, hx0, hx1, hxm, hs, h1, h2, h3, heq, hA, hB⟩ := kepler_struct he0 he1 M
+  obtain ⟨hr0, hr1, k, hk⟩ := red2pi_spec (M * (π / 180))
+  have hpi := Real.pi_pos
+  have hg := gap_pos 34
+  generalize hμ : M * (π / 180) = μ at *
+  have hM : M = μ * (180 / π) := by rw [← hμ]; field_simp
+  have hpos : (0 : ℝ) < 180 / π := by positivity
+  have hE1 : 0 < e0 * (180 / π) := by apply mul_pos <;> linarith
+  have hE2 : e0 * (180 / π) < 180 := by
+    calc e0 * (180 / π) < π * (180 / π) := by apply mul_lt_mul_of_pos_right (by linarith) hpos
+      _ = 180 := by field_simp
+  refine ⟨_, _, heq, red2pi μ * (180 / π), k, by positivity, ?_, ?_, ?_, ?_⟩
+  · calc red2pi μ * (180 / π) < 2 * π * (180 / π) := by apply mul_lt_mul_of_pos_right hr1 hpos
+      _ = 360 := by field_simp; ring
+  · rw [hM]; conv_lhs => rw [hk]
+    field_simp; ring
+  · intro hr
+    have : red2pi μ ≤ π := by
+      by_contra hcon
+      have : π * (180 / π) < red2pi μ * (180 / π) := mul_lt_mul_of_pos_right (not_le.mp hcon) hpos
+      have e180 : π * (180 / π) = 180 := by field_simp
+      linarith
+    obtain ⟨hf1, _⟩ := hA this
+    rw [hf1, mul_one]; exact ⟨hE1, hE2⟩
+  · intro hr
+    have : π < red2pi μ := by
+      by_contra hcon
+      have : red2pi μ * (180 / π) ≤ π * (180 / π) := mul_le_mul_of_nonneg_right (not_lt.mp hcon) hpos.le
+      have e180 : π * (180 / π) = 180 := by field_simp
+      linarith
+    obtain ⟨hf1, _⟩ := hB this
+    rw [hf1]
+    constructor <;> nlinarith
+
+/-- "the true anomaly satisfies tan(v/2) = sqrt((1+e)/(1-e)) tan(E/2)" for the returned pair `(E, v)`. -/
+theorem true_anomaly_relation {e : ℝ} (he0 : 0 ≤ e) (he1 : e < 1) (M : ℝ) :
+    ∃ E v, kepler_equation e M = .ok (E, v) ∧
+      Real.tan (pradians v / 2) = Real.sqrt ((1 + e) / (1 - e)) * Real.tan (pradians E / 2) := by
+  obtain ⟨f, m, e0, xr, hred, hf, hx0, hx1, hxm, hs, h1, h2, h3, heq, hA, hB⟩ := kepler_struct he0 he1 M
+  refine ⟨_, _, heq, ?_⟩
+  rw [radians_degrees, radians_degrees]
+  have : 2 * Real.arctan (Real.sqrt ((1 + e) / (1 - e)) * Real.tan (e0 * f / 2)) / 2
+      = Real.arctan (Real.sqrt ((1 + e) / (1 - e)) * Real.tan (e0 * f / 2)) := by ring
+  rw [this, Real.tan_arctan]
+
+/-- The returned `E` is within `(π/2)/2^34` rad of EVERY solution `x ∈ (-π, π]` of Kepler's equation for an
+    anomaly congruent to `M` (the bracket invariant carried through reduction and reflection). -/
+theorem kepler_near_root {e : ℝ} (he0 : 0 ≤ e) (he1 : e < 1) (M x : ℝ) (k : ℤ) (hx1 : -π < x) (hx2 : x ≤ π)
+    (hM : pradians M = x - e * Real.sin x + 2 * π * k) :
+    ∃ E v, kepler_equation e M = .ok (E, v) ∧ |pradians E - x| ≤ (π / 2) / 2 ^ 34 := by
+  obtain ⟨f, m, e0, xr, hred, hf, hx0, hxpi, hxm, hs, h1, h2, h3, heq, hA, hB⟩ := kepler_struct he0 he1 M
+  obtain ⟨hr0, hr1, k', hk'⟩ := red2pi_spec (M * (π / 180))
+  have hpi := Real.pi_pos
+  have hmono := kep_strictMono he0 he1
+  refine ⟨_, _, heq, ?_⟩
+  rw [radians_degrees]
+  unfold pradians at hM
+  generalize hμ : M * (π / 180) = μ at *
+  -- kep e x lies in (-π, π]
+  have hkx1 : -π < kep e x := by
+    have := hmono hx1; rw [kep_neg, kep_pi] at this; exact this
+  have hkx2 : kep e x ≤ π := by
+    have := hmono.monotone hx2; rw [kep_pi] at this; exact this
+  have hkx : kep e x = x - e * Real.sin x := rfl
+  by_cases hc : π < red2pi μ
+  · obtain ⟨hf1, hm⟩ := hB hc
+    -- kep e x + m = 2π (k' - k + 1), and lies in (-π, 2π): so it is 0
+    have hsum : kep e x + m = 2 * π * ((k' - k + 1 : ℤ) : ℝ) := by
+      push_cast; rw [hm, hkx]; linarith
+    have hj : (k' - k + 1 : ℤ) = 0 := by
+      have hlo : -π < 2 * π * ((k' - k + 1 : ℤ) : ℝ) := by rw [← hsum]; rw [hm]; linarith
+      have hhi : 2 * π * ((k' - k + 1 : ℤ) : ℝ) < 2 * π := by rw [← hsum]; rw [hm]; linarith
+      have h1' : (-1 : ℝ) < ((k' - k + 1 : ℤ) : ℝ) := by nlinarith
+      have h2' : ((k' - k + 1 : ℤ) : ℝ) < 1 := by nlinarith
+      have h1'' : (-1 : ℤ) < k' - k + 1 := by exact_mod_cast h1'
+      have h2'' : k' - k + 1 < (1 : ℤ) := by exact_mod_cast h2'
+      omega
+    rw [hj] at hsum
+    have hxr : xr = -x := by
+      apply hmono.injective
+      rw [hxm, kep_neg]; simp at hsum; linarith
+    rw [hxr] at h1
+    rw [hf1]
+    have : e0 * -1 - x = -(e0 - -x) := by ring
+    rw [this, abs_neg]; unfold gap at h1; exact h1
+  · obtain ⟨hf1, hm⟩ := hA (not_lt.mp hc)
+    have hsum : kep e x - m = 2 * π * ((k' - k : ℤ) : ℝ) := by
+      push_cast; rw [hm, hkx]; linarith
+    have hj : (k' - k : ℤ) = 0 := by
+      have hlo : -(2 * π) < 2 * π * ((k' - k : ℤ) : ℝ) := by rw [← hsum]; rw [hm]; linarith [not_lt.mp hc]
+      have hhi : 2 * π * ((k' - k : ℤ) : ℝ) < 2 * π := by rw [← hsum]; rw [hm]; linarith
+      have h1' : (-1 : ℝ) < ((k' - k : ℤ) : ℝ) := by nlinarith
+      have h2' : ((k' - k : ℤ) : ℝ) < 1 := by nlinarith
+      have h1'' : (-1 : ℤ) < k' - k := by exact_mod_cast h1'
+      have h2'' : k' - k < (1 : ℤ) := by exact_mod_cast h2'
+      omega
+    rw [hj] at hsum
+    have hxr : xr = x := by
+      apply hmono.injective
+      rw [hxm]; simp at hsum; linarith
+    rw [hxr] at h1
+    rw [hf1, mul_one]
+    unfold gap at h1; exact h1
+
+/-- "every mean anomaly, of either sign and any number of turns": `Angle(M)` reduces `M` by whole turns only, so
+    the residual clause holds for the composition `kepler_equation(e, Angle(M))` with `M` any real number. -/
+theorem kepler_any_turns {e : ℝ} (he0 : 0 ≤ e) (he1 : e < 1) (M : ℝ) :
+    ∃ E v, kepler_of_float e M = .ok (E, v) ∧
+      (∃ k : ℤ, |E - e * pdegrees (Real.sin (pradians E)) - M - 360 * k| ≤ (1 + e) * (90 / 2 ^ 34)) ∧
+      Real.tan (pradians v / 2) = Real.sqrt ((1 + e) / (1 - e)) * Real.tan (pradians E / 2) ∧
+      -180 < E ∧ E < 180 := by
+  obtain ⟨j, hj⟩ := reduce_deg_congr M
+  obtain ⟨E, v, h, k, hk⟩ := kepler_residual he0 he1 (reduce_deg M)
+  obtain ⟨E', v', h', htan⟩ := true_anomaly_relation he0 he1 (reduce_deg M)
+  obtain ⟨E'', v'', h'', r, k2, _, _, _, hlo, hhi⟩ := kepler_half_revolution he0 he1 (reduce_deg M)
+  rw [h] at h' h''
+  simp only [Except.ok.injEq, Prod.mk.injEq] at h' h''
+  obtain ⟨rfl, rfl⟩ := h'
+  obtain ⟨rfl, rfl⟩ := h''
+  refine ⟨E, v, h, ⟨k + j, ?_⟩, htan, ?_, ?_⟩
+  · rw [hj] at hk
+    have : E - e * pdegrees (Real.sin (pradians E)) - M - 360 * ((k + j : ℤ) : ℝ)
+        = E - e * pdegrees (Real.sin (pradians E)) - (M + 360 * (j : ℝ)) - 360 * (k : ℝ) := by push_cast; ring
+    rw [this]; exact hk
+  · rcases le_or_gt r 180 with h | h
+    · linarith [(hlo h).1]
+    · exact (hhi h).1
+  · rcases le_or_gt r 180 with h | h
+    · exact (hlo h).2
+    · linarith [(hhi h).2]
+
+example : ∃ E v, kepler_equation 0.99 2 = .ok (E, v) ∧
+    ∃ k : ℤ, |E - 0.99 * pdegrees (Real.sin (pradians E)) - 2 - 360 * k| ≤ (1 + 0.99) * (90 / 2 ^ 34) :=
+  kepler_residual (by norm_num) (by norm_num) 2
+
 end Pymeeus.C11
